@@ -804,6 +804,18 @@ def oracle(I, ctx, case, rng):
         n += 1
         if not ((uo[0] == "err" and uo[1] == ERR["UnusedTargetError"]) or (uo[0] == "ok" and uo[3] == ERR["UnusedTargetError"])):
             ctx.violation("unused-value-accepted", dict(inp, ctx=t2), "description with a value no primitive consumes was serialised", observed=uo[:1] + uo[3:], expected="UnusedTargetError")
+        # (U2) ... and so must an unconsumed element at the end of a list of plain values
+        ll = [(p, k, v) for (p, k, v) in leaves(case["ctx"]) if v[0] == "L" and v[1] and all(x[0] in ("I", "B", "Bits", "Bytes") for x in v[1])]
+        if ll and not D:
+            t4 = copy.deepcopy(case["ctx"])
+            p, k, v = rng.choice(ll)
+            lst = subtree(t4, p)
+            lst[1].append(copy.deepcopy(lst[1][-1]))
+            lo, _, _ = run_ser(I, prog, t4, D)
+            n += 1
+            if not ((lo[0] == "err" and lo[1] == ERR["UnusedTargetError"]) or (lo[0] == "ok" and lo[3] == ERR["UnusedTargetError"])):
+                ctx.violation("unused-list-element-accepted", dict(inp, ctx=t4), "description with a list element no primitive consumes was serialised",
+                              observed=lo[:1] + lo[3:], expected="UnusedTargetError")
         # (M) a missing value (no default) must make serialisation fail
         lv = [(p, k, v) for (p, k, v) in leaves(case["ctx"]) if v[0] in ("I", "B", "Bits", "Bytes")]
         if lv and not D:
@@ -844,7 +856,7 @@ def run(ctx):
         "Deserialiser reads from random bytes, then mutated (missing/unused/short/default_values/changed/retyped-to-dict); each case runs "
         "the real Serialiser and the real Deserialiser and both Gallina interpreters; non-trivial = serialisation succeeds with >= 3 operations "
         "(distinct by program+description digest)")
-    n = ctx.pick(900, 12000)
+    n = ctx.pick(600, 12000)
     cases = []
     for c in load_corpus():
         try:
@@ -898,7 +910,7 @@ def run(ctx):
             pass
 
     # ---- property oracle on the implementation ---------------------------------------------
-    m = ctx.pick(2500, 40000)
+    m = ctx.pick(1500, 40000)
     evals = 0
     for case in cases:
         try:
